@@ -129,7 +129,7 @@ def gen_unary(fname, tier, variant=None):
     for s in SH:
         for d in DT:
             for k in kinds_for(d):
-                yield case(fname, d, OP(fname, A(k, s, d, variant, R.slot())))
+                yield case(fname, unary_tag(fname, d), OP(fname, A(k, s, d, variant, R.slot())))
             if d == 'c' and variant == 'pos':  # branch cut side: negative real part too
                 yield case(fname, d, OP(fname, A('const', s, d, 'any', 1)))
 
@@ -147,6 +147,24 @@ BINARY = {
 
 
 REPR_PAIRS = [((), ()), ((2, 3), ()), ((3,), (2, 1)), ((2, 3), (1, 3)), ((1,), (2, 2)), ((2, 3), (2, 3)), ((2, 3), (2, 2))]
+
+
+def pair_tag(fname, d1, d2):
+    'input class of a binary call: the dtype pair, except for the boolean classes that share one root cause across entries'
+    if d1 + d2 == 'bb':
+        if fname in ('numpy.floor_divide', 'numpy.mod', 'numpy.divmod', 'op.floordiv', 'op.mod', 'divmod'):
+            return '@bool-floordiv-mod'
+        if fname in ('numpy.greater', 'numpy.less', 'op.gt', 'op.lt'):
+            return '@bool-order'
+    return d1 + d2
+
+
+def unary_tag(fname, d):
+    if fname in ('numpy.absolute', 'op.abs') and d == 'b':
+        return '@abs-bool'
+    if fname == 'numpy.reciprocal' and d in 'bi':
+        return '@int-reciprocal'
+    return d
 
 
 def gen_binary(fname, tier, variants=None, shapes=None, intpow=False):
@@ -167,7 +185,7 @@ def gen_binary(fname, tier, variants=None, shapes=None, intpow=False):
                 i = n()
                 for r in rot:
                     k1, k2 = pairs[(i + r) % len(pairs)]
-                    yield case(fname, d1 + d2, OP(fname, A(k1, s1, d1, v1, 0), A(k2, s2, d2, v2, 1)))
+                    yield case(fname, pair_tag(fname, d1, d2), OP(fname, A(k1, s1, d1, v1, 0), A(k2, s2, d2, v2, 1)))
     # ties and identical operands (exact values): comparisons and min/max are decided by equality there
     for s in ((3,), (2, 3)):
         for d in DT:
@@ -175,7 +193,7 @@ def gen_binary(fname, tier, variants=None, shapes=None, intpow=False):
                 if intpow and d in 'bi' and k == 'arg':
                     continue
                 x = A(k, s, d, v2, 0)
-                yield case(fname, d + d, OP(fname, x, x))
+                yield case(fname, pair_tag(fname, d, d), OP(fname, x, x))
     # python and numpy scalars next to a function array
     for s in ((), (2, 3)):
         for d in DT:
@@ -183,11 +201,11 @@ def gen_binary(fname, tier, variants=None, shapes=None, intpow=False):
                 k = R.kind(d)
                 lt = 'bifc'[[bool, int, float, complex].index(type(lit))]
                 node = ['cplx', lit.real, lit.imag] if lt == 'c' else L(lit)
-                yield case(fname, d + lt, OP(fname, A(k, s, d, v1, 0), node))
+                yield case(fname, pair_tag(fname, d, lt), OP(fname, A(k, s, d, v1, 0), node))
                 if not (intpow and d in 'bi' and lt in 'bi' and k == 'arg'):
-                    yield case(fname, lt + d, OP(fname, node, A(k, s, d, v2, 1)))
+                    yield case(fname, pair_tag(fname, lt, d), OP(fname, node, A(k, s, d, v2, 1)))
                 if s and lt != 'c':
-                    yield case('npscalar', lt, OP(fname, A(k, s, d, v1, 0), ['npscalar', lt, lit]))
+                    yield case('npscalar', '@npscalar', OP(fname, A(k, s, d, v1, 0), ['npscalar', lt, lit]))
 
 
 def gen_power(fname, tier):
@@ -277,13 +295,31 @@ def _item_value(it):
     return None
 
 
+def _slice_needs_clamp(sl, n):
+    'start/stop outside [-n, n], or start beyond stop in the direction of the step: numpy clamps / returns an empty selection'
+    a, b, c = sl[1], sl[2], sl[3]
+    if c == 0:
+        return False
+    if any(x is not None and not -n <= x <= n for x in (a, b)):
+        return True
+    step = 1 if c is None else c
+    norm = lambda x: x + n if x < 0 else x
+    if step > 0:
+        start = 0 if a is None else norm(a)
+        stop = n if b is None else norm(b)
+        return start > stop
+    start = n - 1 if a is None else norm(a)
+    stop = -1 if b is None else norm(b)
+    return start < stop
+
+
 def index_class(items, shape):
-    'input class of an index expression relative to the indexed shape (pure function of the input)'
+    '''input class of an index expression relative to the indexed shape (pure function of the input); one class per
+    expression, the first that applies of: ell2, toomany, bool-mask, multi-adv, slice-clamp, then the remaining features'''
     feats = set()
     nell = sum(1 for it in items if it[0] == 'ell')
     if nell > 1:
         return 'ell2'
-    # axes consumed by each item
     consume = []
     for it in items:
         t = it[0]
@@ -291,8 +327,6 @@ def index_class(items, shape):
             consume.append(0)
         elif t == 'np' and it[1] == 'b':
             consume.append(max(1, numpy.ndim(it[2])))
-        elif t == 'lit' and isinstance(it[1], list) and it[1] and isinstance(it[1][0], bool):
-            consume.append(1)
         elif t == 'lit' and isinstance(it[1], bool):
             consume.append(0)
         else:
@@ -317,35 +351,32 @@ def index_class(items, shape):
         elif t == 'sl':
             if it[3] == 0:
                 feats.add('step0')
-            else:
-                if any(x is not None and not -n <= x <= n for x in (it[1], it[2])):
-                    feats.add('slice-oob')
-                if len(range(*v.indices(n))) == 0:
-                    feats.add('slice-empty')
+            elif _slice_needs_clamp(it, n):
+                feats.add('slice-clamp' if it[3] in (None, 1) else 'slice-clamp-step')
         elif isinstance(v, bool) or (isinstance(v, (list, numpy.ndarray)) and numpy.asarray(v).dtype == bool):
             nadv += 1
-            feats.add('bool')
+            feats.add('bool-mask')
         elif isinstance(v, int):
             if not -n <= v < n:
                 feats.add('int-oor')
         else:
             nadv += 1
             arr = numpy.asarray(v)
-            if arr.size == 0:
-                feats.add('arr-empty')
-            elif (arr < -n).any() or (arr >= n).any():
+            if arr.size and ((arr < -n).any() or (arr >= n).any()):
                 feats.add('arr-oor')
         axis += c
-    if nadv == 1:
+    if nadv > 1:
+        feats.add('multi-adv')
+    elif nadv == 1:
         feats.add('adv1')
-    elif nadv > 1:
-        feats.add('advN')
-    if nadv:
         # numpy: integers next to an index array are advanced indices too; when the advanced indices are not
         # adjacent the broadcast dimensions move to the front of the result
         pos = [i for i, it in enumerate(items) if it[0] in ('arr', 'np') or (it[0] == 'lit' and (isinstance(it[1], list) or type(it[1]) in (int, bool)))]
         if pos and pos[-1] - pos[0] + 1 != len(pos):
-            feats.add('adv-separated')
+            feats.add('multi-adv')
+    for cls in ('bool-mask', 'multi-adv', 'slice-clamp'):
+        if cls in feats:
+            return cls
     return '+'.join(sorted(feats)) or 'basic'
 
 
@@ -426,6 +457,9 @@ def gen_reshape(fname, tier):
         yield case(fname, 'list', OP(fname, x, LST(L(size // 2), L(2)) if size % 2 == 0 else LST(L(size))))
         for bad in ((4,), (2, 2), (size, 2), (5, -1), (-1, -1), (0,), (size + 1,)):
             yield case(fname, 'badsize', OP(fname, x, TUP(*map(L, bad))))
+    for s in ((0,), (2, 0), (0, 3)):
+        for t in ((0,), (-1,), (0, 2), (3, 0), (2, -1), (0, -1), (1,)):
+            yield case(fname, 'zero-size', OP(fname, A(R.kind('f'), s, 'f'), TUP(*map(L, t))))
     for s in ((), (1,), (1, 1)):
         for t in ((), (1,), (1, 1), (-1,), (1, -1), (2,)):
             yield case(fname, 'size1', OP(fname, A(R.kind('i'), s, 'i'), TUP(*map(L, t))))
@@ -615,7 +649,7 @@ def gen_diagonal(fname, tier):
                 sq = s[a1] == s[a2]
                 for off in offsets:
                     d = R.dtype()
-                    tag = 'same-axis' if same else 'nonsquare' if not sq else 'square' + (':offset-empty' if abs(off) >= s[a1] else ':offset' if off else '')
+                    tag = 'same-axis' if same else 'nonsquare' if not sq else ('@diagonal-offset-beyond' if abs(off) >= s[a1] else 'square:offset' if off else 'square')
                     yield case(fname, tag, OP(fname, x0(d), L(off), L(a1), L(a2)) if R.flag() else OP(fname, x0(d), offset=L(off), axis1=L(a1), axis2=L(a2)))
         yield case(fname, 'axis-oor', OP(fname, x0('f'), L(0), L(0), L(nd)))
 
@@ -630,6 +664,13 @@ def _contraction_class(s1, s2):
     return 'match' if a == b else 'mismatch-1' if 1 in (a, b) else 'mismatch'
 
 
+def contraction_tag(cls, dts):
+    'valid contractions of all-boolean operands are one cross-function class (typed int by nutils, bool by numpy)'
+    if cls in ('match', 'scalar', 'same-shape', 'same-size-bc') and dcls(dts) == 'bool':
+        return '@bool-contraction'
+    return cls
+
+
 def gen_matmul(fname, tier):
     n = Counter()
     R = Rot()
@@ -641,7 +682,7 @@ def gen_matmul(fname, tier):
             for d1, d2 in dps if tier != 'quick' else [dps[(j + 3 * q) % 8] for q in range(3)]:
                 pairs = kindpairs(d1, d2)
                 k1, k2 = R.pick(pairs)
-                tag = _contraction_class(s1, s2) + ':' + dcls(d1 + d2)
+                tag = contraction_tag(_contraction_class(s1, s2), d1 + d2)
                 yield case(fname, tag, OP(fname, A(k1, s1, d1, 'any', 0), A(k2, s2, d2, 'any', 1)))
 
 
@@ -655,7 +696,12 @@ def gen_vdot(fname, tier):
                 pairs = kindpairs(d1, d2)
                 k1, k2 = R.pick(pairs)
                 size = lambda s: int(numpy.prod(s, dtype=int))
-                tag = ('same-shape' if s1 == s2 else 'same-size' if size(s1) == size(s2) else 'diff-size') + ':' + dcls(d1 + d2)
+                try:
+                    numpy.broadcast_shapes(s1, s2)
+                    bc = True
+                except ValueError:
+                    bc = False
+                tag = contraction_tag('same-shape' if s1 == s2 else ('same-size-bc' if bc else 'same-size') if size(s1) == size(s2) else 'diff-size', d1 + d2)
                 yield case(fname, tag, OP(fname, A(k1, s1, d1, 'any', 0), A(k2, s2, d2, 'any', 1)))
 
 
@@ -696,10 +742,13 @@ EINSUM = [
 ]
 
 
+NREJECTED = 7  # trailing entries of EINSUM
+
+
 def gen_einsum(fname, tier):
     n = Counter()
     R = Rot()
-    for sig, shapes in EINSUM:
+    for isig, (sig, shapes) in enumerate(EINSUM):
         for dts in ('f' * 3, 'i' * 3, 'c' * 3, 'ifc', 'bbb', 'fib'):
             ks = [R.pick(kinds_for(d, True)) for j, d in enumerate(dts[:len(shapes)])]
             if all(k == 'raw' for k in ks):
@@ -707,7 +756,8 @@ def gen_einsum(fname, tier):
             ops = [A(k, s, d, 'any', j) for j, (k, s, d) in enumerate(zip(ks, shapes, dts))]
             cls = 'ellipsis' if '...' in sig else 'explicit' if '->' in sig else 'implicit'
             rep = any(part.replace('.', '').count(c) > 1 for part in sig.split('->')[0].split(',') for c in set(part.replace('.', '')))
-            tag = 'bool' if dcls(dts[:len(shapes)]) == 'bool' else '{}op:{}{}'.format(len(shapes), cls, '+repeated' if rep else '')
+            valid = isig < len(EINSUM) - NREJECTED
+            tag = '@bool-contraction' if valid and dcls(dts[:len(shapes)]) == 'bool' else '{}op:{}{}'.format(len(shapes), cls, '+repeated' if rep else '') if valid else 'rejected'
             yield case(fname, tag, OP(fname, L(sig), *ops))
 
 
@@ -727,7 +777,7 @@ def gen_linalg(fname, tier):
             for k in kinds_for(d):
                 if k == 'ielem' and fname in ('numpy.linalg.eig', 'numpy.linalg.eigh') and len(s) > 2:
                     continue
-                tag = 'square:' + ('int' if d in 'bi' else 'num') if sq else 'nonsquare' 
+                tag = ('@linalg-int' if d in 'bi' and fname in ('numpy.linalg.det', 'numpy.linalg.inv') else 'square') if sq else ('@eig-nonsquare' if fname in ('numpy.linalg.eig', 'numpy.linalg.eigh') else 'nonsquare')
                 yield case(fname, tag, OP(fname, A(k, s, d, variant if sq else 'any', R.slot())))
 
 
@@ -817,7 +867,7 @@ def gen_operators(fname, tier):
                     if name == 'op.pow' and d1 in 'bi' and d2 in 'bi':
                         pairs = [(k1, k2) for k1, k2 in pairs if k2 != 'arg']
                     k1, k2 = R.pick(pairs)
-                    yield case(name, d1 + d2, OP(name, A(k1, s1, d1, v1, 0), A(k2, s2, d2, v2, 1)))
+                    yield case(name, pair_tag(name, d1, d2), OP(name, A(k1, s1, d1, v1, 0), A(k2, s2, d2, v2, 1)))
         for d in DT:  # reflected with python scalars
             k = R.kind(d)
             if not (name == 'op.pow' and d in 'bi' and k == 'arg'):
@@ -826,13 +876,13 @@ def gen_operators(fname, tier):
     for name in ('op.neg', 'op.pos', 'op.abs', 'op.invert'):
         for s in SH:
             for d in DT:
-                yield case(name, d, OP(name, A(R.kind(d), s, d, 'any', R.slot())))
+                yield case(name, unary_tag(name, d), OP(name, A(R.kind(d), s, d, 'any', R.slot())))
     for s1, s2 in [((3,), (3,)), ((2, 3), (3,)), ((3,), (3, 2)), ((2, 3), (3, 2)), ((2, 2, 3), (3, 2)), ((2, 3), (2, 3)), ((), (3,))]:
         for d1 in DT:
             for d2 in DT:
                 pairs = kindpairs(d1, d2)
                 k1, k2 = R.pick(pairs)
-                yield case('op.matmul', _contraction_class(s1, s2) + ':' + dcls(d1 + d2), OP('op.matmul', A(k1, s1, d1, 'any', 0), A(k2, s2, d2, 'any', 1)))
+                yield case('op.matmul', contraction_tag(_contraction_class(s1, s2), d1 + d2), OP('op.matmul', A(k1, s1, d1, 'any', 0), A(k2, s2, d2, 'any', 1)))
 
 
 def gen_methods(fname, tier):
